@@ -283,10 +283,82 @@ pub fn program_strategy(max_log2: u8, max_ops: usize) -> impl Strategy<Value = P
     })
 }
 
+/// Large tables (2^21 and 2^22 entries - beyond what the generated programs allocate twice per
+/// case): hashes that agree in their low 12 / 16 / 20 / 21 bits and differ above, against a sparse
+/// model (slot = hash mod size).  One table per call; only the library's table is allocated.
+pub fn check_large_table(ctx: &mut Ctx, log2: u8, seed: u64) -> Result<(), Violation> {
+    ctx.eval();
+    let size = 1usize << log2;
+    let case = || json!({"large_table_log2": log2, "seed": seed});
+    ctx.set_case(case());
+    ctx.class(&format!("size:large-2^{}", log2));
+    let mut table: CacheTable<u32> = match guarded(|| CacheTable::new(size, 0u32)) {
+        Ok(t) => t,
+        Err(e) => return ctx.fail("cache:new-panics-on-power-of-two", format!("CacheTable::new(2^{}) panicked: {}", log2, e), case()),
+    };
+    let mut model: std::collections::HashMap<usize, (u64, u32)> = Default::default();
+    let mut x = seed | 1;
+    let mut next = || {
+        // xorshift: deterministic in the seed
+        x ^= x << 13;
+        x ^= x >> 7;
+        x ^= x << 17;
+        x
+    };
+    let mut touched: Vec<u64> = vec![];
+    for step in 0..6000u32 {
+        let r = next();
+        let low_bits = [12u32, 16, 20, 21, 22, 8][(r % 6) as usize];
+        let low = (r >> 8) & ((1u64 << low_bits) - 1) & 0xFFF; // a small pool of low parts
+        let high = (next() % 8) << low_bits.max(12);
+        let h = match r % 11 {
+            0 => low,
+            1 => low | 1u64 << 63,
+            _ => low | high,
+        };
+        let v = (next() % 8) as u32;
+        let s = (h as usize) & (size - 1);
+        let cur = *model.get(&s).unwrap_or(&(0u64, 0u32));
+        match next() % 3 {
+            0 => {
+                table.add(h, v);
+                model.insert(s, (h, v));
+            }
+            1 => {
+                let t = (next() % 8) as u32;
+                table.replace_if(h, v, |old| old < t);
+                if cur.1 < t {
+                    model.insert(s, (h, v));
+                }
+            }
+            _ => {}
+        }
+        touched.push(h);
+        // the hash just used, and an earlier one
+        for q in [h, touched[(next() as usize) % touched.len()]] {
+            let qs = (q as usize) & (size - 1);
+            let m = *model.get(&qs).unwrap_or(&(0u64, 0u32));
+            let want = if m.0 == q { Some(m.1) } else { None };
+            let got = table.get(q);
+            if got != want {
+                return ctx.fail("cache:get", format!("table of 2^{} entries, step {}: get({:#x}) = {:?}, model says {:?}", log2, step, q, got, want), case());
+            }
+        }
+    }
+    ctx.nontrivial(fp(&("large", log2, seed)));
+    Ok(())
+}
+
 pub fn run(cfg: &Cfg) -> i32 {
     let report = engine::run_shards(cfg, |shard, ctx, seedf| {
         if shard == 0 {
             engine::run_one(ctx, check_sizes)?;
+        }
+        // a few large tables (four shards in quick, all in thorough; 2^21 and 2^22 entries)
+        if shard < cfg.tier.pick(4usize, 16usize) {
+            for log2 in [21u8, 22u8] {
+                engine::run_one(ctx, |ctx| check_large_table(ctx, log2, seedf(7) ^ (shard as u64 * 0x9E37) ^ log2 as u64))?;
+            }
         }
         let max_log2 = cfg.tier.pick(16u8, 20u8);
         let strat = program_strategy(max_log2, 400);
@@ -296,7 +368,7 @@ pub fn run(cfg: &Cfg) -> i32 {
     engine::finish(
         report,
         EvidenceSpec {
-            rule: "cases = programs of 0-400 add / replace_if / get operations over tables of size 2^0..2^16 (2^20 thorough) with entry types u8, u32 and a Copy struct; hashes are drawn to collide (same slot with different high bits, multiples of the size, bits above 32 or bit 63 only, 0, u64::MAX) and predicates (old<arg, old==arg, true, false) over a small value domain; after every operation and in a final scan of all touched hashes, stored hashes and slot probes, get() is compared with a vector model (slot = hash mod size, initial content (0, default)); plus CacheTable::new on 90+ non-power-of-two sizes (must panic) and on 2^0..2^20 (must not). evaluations = programs + sizes. Non-trivial = program with at least one collision overwrite and one refused replace_if; distinct = program fingerprints.".into(),
+            rule: "cases = programs of 0-400 add / replace_if / get operations over tables of size 2^0..2^16 (2^20 thorough) with entry types u8, u32 and a Copy struct; hashes are drawn to collide (same slot with different high bits, multiples of the size, bits above 32 or bit 63 only, 0, u64::MAX) and predicates (old<arg, old==arg, true, false) over a small value domain; after every operation and in a final scan of all touched hashes, stored hashes and slot probes, get() is compared with a vector model (slot = hash mod size, initial content (0, default)); plus a few tables of 2^21 and 2^22 entries driven with hashes that agree in their low 8-22 bits against a sparse model; plus CacheTable::new on 90+ non-power-of-two sizes (must panic) and on 2^0..2^20 (must not). evaluations = programs + sizes. Non-trivial = program with at least one collision overwrite and one refused replace_if; distinct = program fingerprints.".into(),
             assumptions: vec!["out-of-bounds accesses are observed through the unsafe-precondition checks of get_unchecked in the `checked` profile (abort -> fatal-signal handler -> violation) and through the libFuzzer+ASan target cache_prog in the thorough tier".into()],
             trusted_base: vec!["harness/src/props/c19.rs vector model".into(), "proptest 1.11".into()],
             exhaustive: None,
@@ -308,6 +380,9 @@ pub fn run(cfg: &Cfg) -> i32 {
 pub fn replay(ctx: &mut Ctx, case: &Value) -> Result<(), Violation> {
     if case.get("new_size").is_some() {
         return check_sizes(ctx);
+    }
+    if let Some(l) = case.get("large_table_log2").and_then(|x| x.as_u64()) {
+        return check_large_table(ctx, l as u8, case.get("seed").and_then(|x| x.as_u64()).unwrap_or(1));
     }
     let p = Program::from_json(case).ok_or_else(|| ctx.violation("INFRA", "bad C19 case".into(), Value::Null))?;
     check_program(ctx, &p)
